@@ -20,8 +20,9 @@ Import ListNotations.
    splitting del_id makes the corresponding lemma, and with it this file, fail *)
 Theorem C03_source_shapes :
   Gen.TxnShapeGen.get_id_one_txn = true /\ Gen.TxnShapeGen.del_id_one_txn = true /\
-  Gen.TxnShapeGen.mark_uploaded_one_txn = true /\ Gen.TxnShapeGen.reads_in_snapshot = true.
-Proof. exact (conj src_get_id_one_txn (conj src_del_id_one_txn (conj src_mark_uploaded_one_txn src_reads_in_snapshot))). Qed.
+  Gen.TxnShapeGen.mark_uploaded_one_txn = true /\ Gen.TxnShapeGen.reads_in_snapshot = true /\
+  Gen.TxnShapeGen.wal_switch_retried = true.
+Proof. exact (conj src_get_id_one_txn (conj src_del_id_one_txn (conj src_mark_uploaded_one_txn (conj src_reads_in_snapshot src_wal_switch_retried)))). Qed.
 Print Assumptions C03_source_shapes.
 
 (* 1. MAIN: after any schedule, the log (the order in which calls reached their commit point) is a one-at-a-time
@@ -119,6 +120,23 @@ Theorem C03_concurrent_first_open : forall sc n es p pr,
   (nth_error (oprocs w) p = Some pr -> oleft pr = [] -> schema_full (osch w) = true).
 Proof. exact open_complete. Qed.
 Print Assumptions C03_concurrent_first_open.
+
+(* 8. the journal-mode switch that every constructor starts with: sqlite refuses it AT ONCE (no busy handler) while
+      another connection holds a lock.  With the source's retry loop (7241d92; `wal_switch_retried` is read from the
+      source on every run) no sequence of answers makes the constructor fail, and the first free moment completes the
+      switch; the pinned tree executed the statement once and failed on the first refusal (reproduced with real
+      processes: known_findings/C03.json F-C03c).  The 30 s deadline of the loop is real time: not modelled. *)
+Theorem C03_first_open_switch_never_fails : forall answers,
+  wal_run Gen.TxnShapeGen.wal_switch_retried answers <> WalFailed.
+Proof. rewrite src_wal_switch_retried. exact wal_never_fails. Qed.
+Print Assumptions C03_first_open_switch_never_fails.
+Theorem C03_first_open_switch_completes : forall pre post, Forall (fun b => b = true) pre ->
+  wal_run Gen.TxnShapeGen.wal_switch_retried (pre ++ false :: post) = WalDone.
+Proof. rewrite src_wal_switch_retried. exact wal_done_after_free. Qed.
+Print Assumptions C03_first_open_switch_completes.
+Theorem C03_first_open_unretried_switch_refuted : exists answers, wal_run false answers = WalFailed.
+Proof. exact wal_unretried_refuted. Qed.
+Print Assumptions C03_first_open_unretried_switch_refuted.
 
 (* non-vacuity: two processes asking for the same new description in the two-id subspace 3:5 of the 8-bit space, the
    second one attempting BEGIN IMMEDIATE while the first is inside its transaction (blocked: nothing happens), then
